@@ -322,6 +322,7 @@ func (f *Frame) applyContract(con *Contract, callee *ssa.Function, sig *types.Si
 				h := vc.heapVar(vc.sorts.elemHeap(sl.Elem()))
 				na := vc.fresh("hvarr", "(Array Int "+vc.sorts.sortOf(sl.Elem())+")")
 				st.vars[h] = vc.define("E", vc.varSort[h], sto(vc.get(st, h), sref(s.T), na))
+				vc.noteOldWrite(h)
 			}
 		}
 	}
@@ -480,6 +481,7 @@ func (f *Frame) execCopy(v ssa.Value, c *ssa.CallCommon, st *State) {
 	vc.assume(fmt.Sprintf("(forall ((j Int)) (! (= (select %s j) (ite (and (<= %s j) (< j (+ %s %s))) %s (select %s j))) :pattern ((select %s j))))",
 		newArr, soff(dst), soff(dst), n, srcAt(subT("j", soff(dst))), oldArr, newArr))
 	st.vars[h] = vc.define("E", vc.varSort[h], fmt.Sprintf("(ite (> %s 0) %s %s)", n, sto(cur, sref(dst), newArr), cur))
+	vc.noteOldWrite(h)
 	if v != nil {
 		f.vals[v] = n
 	}
@@ -525,6 +527,7 @@ func (f *Frame) execAppend(v ssa.Value, c *ssa.CallCommon, st *State) {
 		inPlace, mkSlice(sref(s), soff(s), newLen, scap(s)), mkSlice(fresh, "0", newLen, newCap))
 	st.vars[h] = vc.define("E", vc.varSort[h], fmt.Sprintf("(ite %s %s (ite %s %s %s))", nothing, cur,
 		inPlace, sto(cur, sref(s), newArr), sto(cur, fresh, newArr)))
+	vc.noteOldWrite(h)
 	if v != nil {
 		f.defVal(v, res)
 	}
